@@ -994,6 +994,12 @@ var _ = rc.Msg{}
 func (st *groupState) lifecycleChecks(n *Net, timing bool) {
 	s := st.s
 	for _, gr := range st.readers {
+		if gr.closeInv != 0 && gr.closeRet == 0 && s.Ended == "steps" && s.Now()-gr.closeInvAt <= st.closeBound {
+			// the run used up its step budget while this Close was still within
+			// its time bound: not a hang
+			s.Count("close-pending-at-step-cap")
+			continue
+		}
 		if gr.closeInv != 0 && gr.closeRet == 0 {
 			s.Fail("C09", "R5-reader-close-hung", "reader %d: Close invoked at %v had not returned when the run ended (%s at %v); goroutines: %s", gr.k, gr.closeInvAt, s.Ended, s.Now(), StuckReport(30))
 			continue
